@@ -28,7 +28,7 @@ def main():
     if not overlay:
         if sh('git -C /repo status --porcelain').stdout.strip():
             sys.exit('/repo has uncommitted changes; refusing')
-        if sh('pgrep -f "vcheck run"').stdout.strip():
+        if sh('pgrep -f "[v]check run"').stdout.strip():
             sys.exit('another vcheck is running; refusing (it would read the seeded tree)')
     for s in seeds:
         d = f'{V}/seeded/{s}'
